@@ -1303,8 +1303,13 @@ fn execute_match(
             ))?;
 
             match (&actual_bid_fee, original_bid_fee) {
-                (Some(actual_bid_fee), Some(mut original_bid_fee)) => {
-                    let refund_amount = original_bid_fee.amount - actual_bid_fee.amount;
+                (actual_bid_fee, Some(mut original_bid_fee)) => {
+                    // a fill whose own fee share rounds to zero still frees fee to refund
+                    let actual_bid_fee_amount = match actual_bid_fee {
+                        Some(actual_bid_fee) => actual_bid_fee.amount,
+                        None => Uint128::zero(),
+                    };
+                    let refund_amount = original_bid_fee.amount - actual_bid_fee_amount;
 
                     if refund_amount.gt(&Uint128::zero()) {
                         original_bid_fee.amount = refund_amount;
